@@ -372,7 +372,7 @@ def primitives(ctx):
                 p.call('evaluation.' + rng.choice(['accuracy_knee', 'accuracy_trace']), pts, knees)
         elif g == 'rdp_misc' and knees is not None:
             # a caller-made reduction: end points plus the shared knee indices
-            red = {'concat': [0, knees, n - 1], 'ro': rng.random() < 0.4}
+            red = {'concat': [0, knees, n - 1]}
             rem = R(p.call('rdp.compute_removed_points', pts, red))
             p.call('rdp.mapping', {'list': list(range(0, min(3, len(ctx.pool[idxs[0]]['values']) + 2)))}, red, rem)
             p.call('evaluation.compute_global_rmse', pts, red)
